@@ -154,6 +154,7 @@ struct MapOp {
   int64_t halt = -1;
   uint64_t call = 0, ret = 0;
   bool ok = false;
+  bool threw = false;  // ended with an injected allocation failure: must have had no effect
   uint64_t value = 0;
   std::vector<std::pair<std::string, uint64_t>> visited;
   int thread = 0, op = 0;
